@@ -1,7 +1,8 @@
 #!/bin/bash
 # applies each behaviour-preserving refactor of /verif/neutral to /repo, runs the given checks (default: all, quick),
 # expects exit 0 everywhere (false-alarm regression), reverts.
-cd /repo || exit 2
+# developer aid: VERIF_REPO=<scratch worktree> NEUTRAL_GLOB='N[0-2]*' runs a slice against a scratch copy (several slices in parallel)
+cd ${VERIF_REPO:-/repo} || exit 2
 checks=${@:-C02 C03 C04 C05 C06 C07 C08 C09 C10 C11 C12 C13 C14 C15 C16 C17 C18 C19 C20}
 bad=0
 for d in /verif/neutral/${NEUTRAL_GLOB:-*}.diff; do
